@@ -153,21 +153,32 @@ func newKeyCodec(kt string, nk int, bf uint, rng *rand.Rand, userLayers []int, m
 			vs = append(vs, v)
 		}
 		sort.Slice(vs, func(i, j int) bool { return vs[i] < vs[j] })
-		for _, v := range vs {
+		// sometimes spread the universe over the whole range of the type (keys at and above 2^63, far below zero)
+		wide := rng.Intn(3) == 0
+		for i, v := range vs {
 			switch kt {
 			case "int":
 				c.keys = append(c.keys, int(v))
-			case "int64":
-				c.keys = append(c.keys, int64(v))
-			case "uint":
-				c.keys = append(c.keys, uint(v))
-			case "uint64":
-				c.keys = append(c.keys, uint64(v))
-			}
-			if signed {
 				c.layers = append(c.layers, intLayerRef(v, bf))
-			} else {
-				c.layers = append(c.layers, uintLayerRef(uint64(v), bf))
+			case "int64":
+				if wide && i < len(vs)/2 {
+					v -= 1 << 62
+				} else if wide {
+					v += 1 << 62
+				}
+				c.keys = append(c.keys, int64(v))
+				c.layers = append(c.layers, intLayerRef(v, bf))
+			case "uint", "uint64":
+				u := uint64(v)
+				if wide && i >= len(vs)/2 {
+					u += 1 << 63
+				}
+				if kt == "uint" {
+					c.keys = append(c.keys, uint(u))
+				} else {
+					c.keys = append(c.keys, u)
+				}
+				c.layers = append(c.layers, uintLayerRef(u, bf))
 			}
 		}
 		switch kt {
